@@ -3,6 +3,7 @@ package props
 
 import (
 	"fmt"
+	"math"
 	"strconv"
 	"time"
 
@@ -48,7 +49,7 @@ func init() {
 			return []engine.Phase{
 				{
 					Name: "shift-vs-model", ShardDepth: 2, Bounds: engine.Bounds{EnvDev: 0, InputDev: -1},
-					Rule: "full product h in zooms x v in {0,h,35} x (x,y) in HIdx(h)^2 x f in VIdxSmall(v) x (dx,dy) in offsets(h)^2 x dv in 5 values; non-trivial = distinct (h,x,y,dx,dy) whose shift wraps on at least one axis",
+					Rule: "full product h in zooms x v in {0,h,35} x (x,y) in HIdx(h)^2 x f in VIdxSmall(v) x (dx,dy) in offsets(h)^2 x dv in 9 values (0, +-1, +-2^40 and the four shifts that land on or next to the int64 extremes); non-trivial = distinct (h,x,y,dx,dy) whose shift wraps on at least one axis",
 					Body: func(c *engine.Ctx) {
 						h := zs[c.In("h", len(zs))]
 						hx := alpha.HIdx(h)
@@ -61,7 +62,13 @@ func init() {
 						offs := shiftOffsets(h)
 						dx := offs[c.In("dx", len(offs))]
 						dy := offs[c.In("dy", len(offs))]
-						dv := dvs[c.In("dv", len(dvs))]
+						dvAll := append(append([]int64{}, dvs...), math.MaxInt64-f, math.MinInt64-f, math.MaxInt64-f-1, math.MinInt64-f+1)
+						if f > 0 {
+							dvAll[len(dvAll)-3] = math.MinInt64 // keeps f+dv inside 64 bits for positive f
+						} else if f < 0 {
+							dvAll[len(dvAll)-4] = math.MaxInt64
+						}
+						dv := dvAll[c.In("dv", len(dvAll))]
 						in := ref.Vox{H: h, X: x, Y: y, V: v, F: f}
 						got := operated.GetShiftingSpatialID(in.Ext(), dx, dy, dv)
 						want := in.Shift(dx, dy, dv).Ext()
